@@ -329,6 +329,10 @@ func (db *DB) setActiveSchemaVersion(
 		// For now, we assume that each collection can only have a single source.  This will likely need
 		// to change later.
 		activeCol, rootCol, isActiveFound = db.getActiveCollectionDown(ctx, colsByID, sources[0].SourceCollectionID)
+	} else {
+		// The collection version being activated has no source: it is the root of the set itself,
+		// and the currently active version must be looked for among its descendants.
+		rootCol = col
 	}
 	if !isActiveFound {
 		// We need to look both down and up for the active version - the most recent is not necessarily the active one.
